@@ -18,13 +18,11 @@ theorem mem_subTypesL_forSub {c : Cmd} {b : Blk} {f t : String} (h : MStmt.forSu
   exact List.mem_filterMap.mpr ⟨_, h, rfl⟩
 
 /-- the AndX stanza assigns the AndX block only: what the run relies on in the receiver is untouched -/
-theorem Recv.set_ne {fs : List (String × Bool)} {e env' : Env} (h : Recv fs e env') (g : String) (v : Val)
-    (hg : ∀ p ∈ fs, p.1 ≠ g) : Recv fs (e.set g v) env' := by
-  intro p hp
-  obtain ⟨hs, hf⟩ := h p hp
-  have hne := hg p hp
-  refine ⟨fun hp2 => ?_, fun hp2 h0 => by rw [Env.get_set_ne _ _ _ _ hne]; exact hf hp2 h0⟩
-  obtain ⟨old, xs, h1, h2, h3⟩ := hs hp2
+theorem Recv.set_ne {fs : List String} {e env' : Env} (h : Recv fs e env') (g : String) (v : Val)
+    (hg : ∀ f ∈ fs, f ≠ g) : Recv fs (e.set g v) env' := by
+  intro f hf
+  obtain ⟨old, xs, h1, h2, h3⟩ := h f hf
+  have hne := hg f hf
   exact ⟨old, xs, by rw [Env.get_set_ne _ _ _ _ hne]; exact h1, h2, h3⟩
 
 /-- "WordCount tells which", from the static check: behind fixed-width slots of `n` bytes in all, the parameter
@@ -125,7 +123,7 @@ structure MirrorFactsL (c : Cmd) (body : List UStmt) (m u : List Slot) : Prop wh
   ok : okUL (!(u.filter (·.blk == .P)).isEmpty) (!(u.filter (·.blk == .D)).isEmpty) {}
     (if c.isAndX then [andxField] else []) body = true
   covered : ∀ f ∈ c.fields.map (·.1), f ∈ u.map Slot.field
-  range : ∀ p ∈ recvFields body, p.1 ≠ andxField ∧ c.marshal.all (fun s => s.modifies != some p.1) = true
+  range : ∀ f ∈ recvFields body, f ≠ andxField ∧ c.marshal.all (fun s => s.modifies != some f) = true
   optP : optTrailing c.isAndX (u.filter (·.blk == .P)) 0 = true
   optD : ∀ sl ∈ u.filter (·.blk == .D), (match sl with | .opt .. => false | _ => true) = true
 
@@ -198,9 +196,9 @@ theorem mirror_loops_roundtrip_full {C : Codecs} {T : String → Prop} (hC : Law
   have hsz0 : Recv (recvFields body) env0 sM.env := by
     intro p hp
     obtain ⟨hne, hnomod⟩ := F.range p hp
-    have hfr : sM.env.get p.1 = env.get p.1 := by
-      rw [runMStmts_frameL C c.isAndX c.marshal m { env := prologueEnv c.isAndX env } sM F.lm hrun p.1 hnomod]
-      show (prologueEnv c.isAndX env).get p.1 = env.get p.1
+    have hfr : sM.env.get p = env.get p := by
+      rw [runMStmts_frameL C c.isAndX c.marshal m { env := prologueEnv c.isAndX env } sM F.lm hrun p hnomod]
+      show (prologueEnv c.isAndX env).get p = env.get p
       unfold prologueEnv
       split
       · exact Env.get_set_ne _ _ _ _ hne
@@ -208,16 +206,10 @@ theorem mirror_loops_roundtrip_full {C : Codecs} {T : String → Prop} (hC : Law
     unfold receiverFits at hrecv
     rw [F.hbody] at hrecv
     have := List.all_eq_true.mp hrecv p hp
-    refine ⟨fun hp2 => ?_, fun hp2 h0 => ?_⟩
-    · rw [if_pos hp2] at this
-      split at this
-      · rename_i a b' ha hb
-        exact ⟨a, b', ha, by rw [hfr]; exact hb, by simpa using this⟩
-      · cases this
-    · rw [if_neg (by simp [hp2])] at this
-      rw [hfr] at h0
-      simp only [h0] at this
-      simpa using this
+    split at this
+    · rename_i a b' ha hb
+      exact ⟨a, b', ha, by rw [hfr]; exact hb, by simpa using this⟩
+    · cases this
   have hgo : ∃ (s1 : UState), s1.P = sM.P ∧ s1.D = sM.D ∧ s1.offset = 0 ∧
       runU.go C s0 c.unmarshal = runU.go C s1 body ∧ relationsHold C sM.env sM.P.length 0 body = true ∧
       Agree (if c.isAndX then [andxField] else []) s1.env sM.env ∧
